@@ -12,17 +12,57 @@ from ..engine import Outcome, Prop
 
 CODECS = ['iso-latin-1', 'ISO_LATIN_1', 'latin_1', 'iso_8859_1', 'iso-8859-15', 'iso-8859-10', 'ISO_8859_16', 'latin-1-dos', 'utf-8', 'latin-1', 'iso-8859-15', 'cp1252', 'ascii', 'utf8', 'UTF_8', 'Latin1', 'iso-latin-1-unix', 'utf-8-unix', 'cp437',
           'koi8-r', 'shift_jis', 'euc-jp', 'utf-16', 'mac-roman', 'foo-8', 'utf-8-sig', 'idna', 'hex', 'l1', 'u8']
+
+
+def _all_codec_names():
+    """Every codec name and alias the running interpreter knows, in the spellings a declaration may use (underscores or hyphens),
+    sorted: neighbours in this list share long prefixes — the shapes that a truncating / normalising lookup could confuse."""
+    import encodings.aliases
+    import pkgutil
+    names = set(encodings.aliases.aliases) | set(encodings.aliases.aliases.values())
+    names |= {m.name for m in pkgutil.iter_modules(encodings.__path__) if m.name not in ('aliases',)}
+    names |= {n.replace('_', '-') for n in names}
+    return sorted(n for n in names if n.isascii() and n)
+
+
+ALL_CODECS = _all_codec_names()
 DECL = ['# -*- coding: %s -*-', '# coding=%s', '#coding:%s', '# vim: set fileencoding=%s :', '#!/usr/bin/python # coding: %s',
         '  # coding: %s', '\t#coding=%s', 'coding: %s', 'x = 1 # coding: %s', 'encoding=%s', '"""coding: %s"""', "s = 'coding=%s'",
         '# Coding: %s', '# coding : %s', '# coding:%s trailing', '#coding=%s#', '# -*- coding: %s; mode: python -*-', '# codingX: %s',
         '\f# coding: %s']
 PLAIN = ['', 'x = 1', '# just a comment', '#!/usr/bin/env python', '   ', '"""doc"""', 'import os', '\f', '# coding', 'pass']
 NEWLINES = ['\n', '\r\n', '\r', '\n', '\n']
-TAIL_TEXT = ['¤', 'Š', 'é', 'ü = 1', '€', 'x', '日本', '"ñ"', '# ä', '\x85', ' ']
+TAIL_TEXT = ['¤', 'Š', 'é', 'ü = 1', '€', 'x', '日本', '"ñ"', '# ä', '\x85', '\u2028', 'я', 'λ', 'ש', 'ع', 'ก', '한', 'かナ', '㐂', '𠀋', '‰', 'ı', 'Ł',
+             '─', '½', 'ﬁ', '\u3000', '№', '〒']
+
+
+def codec_names(near=None):
+    """A codec name: from the hand-picked pool (known/alias/unknown, editor suffixes) or any name Python knows; with ``near`` given,
+    a *sibling* of that name (a neighbour in the sorted list of all names, or a case / separator variant of it)."""
+    if near is None:
+        return st.one_of(st.sampled_from(CODECS), st.sampled_from(ALL_CODECS))
+    import bisect
+    i = bisect.bisect_left(ALL_CODECS, near.lower().replace('-', '_'))
+    lo, hi = max(0, i - 4), min(len(ALL_CODECS), i + 5)
+    sib = ALL_CODECS[lo:hi] or ALL_CODECS[:3]
+    return st.one_of(st.sampled_from(sib), st.sampled_from([near.upper(), near.lower(), near.replace('-', '_'), near.replace('_', '-'), near]))
 
 
 @st.composite
-def byte_sources(draw):
+def byte_source_histories(draw):
+    """1-3 byte sources decoded one after the other in one process; the later ones declare siblings of the first one's codec half
+    of the time (a lookup that is memoised, truncated or normalised too eagerly confuses exactly such names)."""
+    first, codec = draw(byte_sources(with_codec=True))
+    res = [first]
+    for _ in range(draw(st.sampled_from([0, 0, 1, 1, 2]))):
+        near = codec if draw(st.booleans()) else None
+        b, c = draw(byte_sources(with_codec=True, near=near))
+        res.append(b)
+    return res
+
+
+@st.composite
+def byte_sources(draw, with_codec=False, near=None):
     parts = []
     if draw(st.integers(0, 4)) == 0:
         parts.append(b'\xef\xbb\xbf')
@@ -33,8 +73,8 @@ def byte_sources(draw):
         if kind == 0:
             line = draw(st.sampled_from(PLAIN))
         else:
-            c = draw(st.sampled_from(CODECS))
-            line = draw(st.sampled_from(DECL)) % c
+            c = draw(codec_names(near))
+            line = draw(st.sampled_from(DECL if near is None else DECL[:7])) % c
             if i < 2 and codec == 'utf-8':
                 codec = c
         nl = draw(st.sampled_from(NEWLINES))
@@ -57,6 +97,8 @@ def byte_sources(draw):
     else:
         tb = b''
     parts.append(tb)
+    if with_codec:
+        return b''.join(parts), codec
     return b''.join(parts)
 
 
@@ -104,8 +146,8 @@ SEPS = ['\n', '\r', '\r\n', '\f', '\v', '\x1c', '\x1d', '\x1e', '\x85', ' ', '
 class C15(Prop):
     id = 'C15'
     rule = ('Generated (bytes): optional UTF-8 BOM + 0-3 first lines built from {plain line, 19 coding-declaration spellings incl. '
-            'non-comment ones} x 22 codec names (known/alias/unknown) x {LF, CRLF, CR, unterminated last line} + a tail encoded in the '
-            'declared codec / UTF-8 / raw bytes. Oracle: CPython tokenize.detect_encoding + bytes.decode of the running interpreter: '
+            'non-comment ones} x codec names (30 hand-picked known/alias/unknown/editor-suffixed ones, or any of the names and aliases the interpreter knows) x {LF, CRLF, CR, unterminated last line} + a tail encoded in the '
+            'declared codec / UTF-8 / raw bytes; half of the byte cases are *histories* of 1-3 sources decoded one after the other in one process, the later ones declaring siblings (neighbours in the sorted name list, case/separator variants) of the codec declared first. Oracle: CPython tokenize.detect_encoding + bytes.decode of the running interpreter: '
             'whenever that succeeds python_bytes_to_unicode(b) returns the same text (plus the kept BOM) and parse(b).get_code() equals '
             'it; nothing asserted when CPython rejects. Generated (str): separator-heavy strings; oracle: character-scanning reference '
             'splitter for both keepends values, len>=1, join == input, len(split_lines(s)) == parse(s).end_pos[0]. Non-trivial: bytes '
@@ -115,6 +157,7 @@ class C15(Prop):
     def strategy(self, tier):
         return st.one_of(
             byte_sources().map(lambda b: {'kind': 'bytes', 'hex': b.hex()}),
+            byte_source_histories().map(lambda l: {'kind': 'bytes', 'hex': l[-1].hex(), 'before': [b.hex() for b in l[:-1]]}),
             st.lists(st.sampled_from(SEPS), max_size=14).map(lambda l: {'kind': 'str', 'text': ''.join(l)}),
             st.text(max_size=12).map(lambda s: {'kind': 'str', 'text': s}),
         )
@@ -132,16 +175,31 @@ class C15(Prop):
                 i = 0
                 while i < len(data):
                     cand = data[:i] + data[i + n:]
-                    if fails({'kind': 'bytes', 'hex': cand.hex()}):
+                    if fails(dict(case, hex=cand.hex())):
                         data = cand
                         changed = True
                     else:
                         i += n
-        return {'kind': 'bytes', 'hex': data.hex()}
+        out = {'kind': 'bytes', 'hex': data.hex()}
+        if case.get('before'):
+            before = list(case['before'])
+            for i in range(len(before) - 1, -1, -1):
+                cand = dict(out, before=before[:i] + before[i + 1:])
+                if fails(cand):
+                    before = cand['before']
+            if before:
+                out['before'] = before
+        return out
 
     def check(self, case):
         if case['kind'] == 'bytes':
             data = bytes.fromhex(case['hex'])
+            for h in case.get('before', ()):
+                # earlier decodings of the same process (history): their own correctness is judged where they are the last element
+                try:
+                    python_bytes_to_unicode(bytes.fromhex(h))
+                except Exception:
+                    pass
             enc, exp = reference_decode(data)
             first2 = b''.join(data.splitlines(True)[:2])
             nt = b'coding' in first2 or data.startswith(b'\xef\xbb\xbf')
@@ -150,6 +208,8 @@ class C15(Prop):
             except UnicodeDecodeError:
                 nt = True
             classes = ['bytes', 'declared:' + (enc or 'undeterminable')[:14]]
+            if case.get('before'):
+                classes.append('bytes-after-%d-earlier-decodings' % len(case['before']))
             if exp is None:
                 return Outcome(excluded='CPython cannot determine the encoding or decode', classes=classes, nontrivial=False)
             fail = None
@@ -209,7 +269,7 @@ class C15(Prop):
 
     def sample_repr(self, case):
         if case['kind'] == 'bytes':
-            return {'kind': 'bytes', 'bytes': repr(bytes.fromhex(case['hex']))[:200]}
+            return {'kind': 'bytes', 'bytes': repr(bytes.fromhex(case['hex']))[:200], 'decoded_before': [repr(bytes.fromhex(h))[:80] for h in case.get('before', ())]}
         return {'kind': 'str', 'text': short(case['text'], 100)}
 
 
